@@ -186,6 +186,13 @@ func DecodeSent(f []byte, hostMAC []byte) SentInfo {
 		if !VerifiesIP4Header(p[:ihl]) {
 			bad("ipv4 header checksum does not verify")
 		}
+		// "a complete packet": more-fragments or a fragment offset make it a piece of a datagram for any receiver
+		// (DF is allowed); the reserved bit must be zero (RFC 791)
+		if ff := be16(p[6:8]); ff&0x3fff != 0 {
+			bad("ipv4 header says fragment (flags/offset %#04x, id %#04x): not a complete datagram", ff, be16(p[4:6]))
+		} else if ff&0x8000 != 0 {
+			bad("ipv4 reserved flag set (flags/offset %#04x)", ff)
+		}
 		s.SrcIP = netip.AddrFrom4([4]byte(p[12:16]))
 		s.DstIP = netip.AddrFrom4([4]byte(p[16:20]))
 		s.HopLimit = int(p[8])
